@@ -46,7 +46,7 @@ def run(tier, seed):
               ('E P 00', 'corpus:byte0'), ('E P 1f', 'corpus:byte31'), ('E P 1d00', 'corpus:load-empty-memory'),
               ('V - 89001e -', 'corpus:unproved-claim')]
     cases = corpus + T.adversarial_cases(rng, 300 if quick else 3000)
-    cases += T.program_cases(rng, 6000 if quick else 100000, 6000 if quick else 100000, 12000 if quick else 300000,
+    cases += T.program_cases(rng, 6000 if quick else 400000, 6000 if quick else 400000, 12000 if quick else 1200000,
                              2 if quick else 3)
     lines = [c[0] for c in cases]
     labels = [c[1] for c in cases]
